@@ -141,6 +141,11 @@ func getAlignmentDims(f io.Reader) (int, int, error) {
 	for s.Scan() {
 		line := s.Text()
 
+		// blank lines are not part of any record
+		if len(line) == 0 {
+			continue
+		}
+
 		if string(line[0]) == ">" {
 			n++
 		}
@@ -245,6 +250,15 @@ func Consensus(f io.Reader) (FastaRecord, error) {
 	return consensus, err
 }
 
+// idFromDescription returns the ID of a fasta record (the first whitespace-delimited token of its header line)
+func idFromDescription(description string) (string, error) {
+	fields := strings.Fields(description)
+	if len(fields) == 0 {
+		return "", errors.New("badly formatted fasta file: header line without an ID")
+	}
+	return fields[0], nil
+}
+
 // ReadAlignment reads an alignment in fasta format to a channel of FastaRecord structs
 func ReadAlignment(f io.Reader, chnl chan FastaRecord, cErr chan error, cdone chan bool) {
 
@@ -264,15 +278,24 @@ func ReadAlignment(f io.Reader, chnl chan FastaRecord, cErr chan error, cdone ch
 	for s.Scan() {
 		line := s.Text()
 
+		// blank lines are not part of any record
+		if len(line) == 0 {
+			continue
+		}
+
 		if first {
 
-			if len(line) == 0 || string(line[0]) != ">" {
+			if string(line[0]) != ">" {
 				cErr <- errors.New("badly formatted fasta file")
 				return
 			}
 
 			description = line[1:]
-			id = strings.Fields(description)[0]
+			id, err = idFromDescription(description)
+			if err != nil {
+				cErr <- err
+				return
+			}
 
 			first = false
 
@@ -290,7 +313,11 @@ func ReadAlignment(f io.Reader, chnl chan FastaRecord, cErr chan error, cdone ch
 			counter++
 
 			description = line[1:]
-			id = strings.Fields(description)[0]
+			id, err = idFromDescription(description)
+			if err != nil {
+				cErr <- err
+				return
+			}
 			seqBuffer = ""
 
 		} else {
@@ -356,15 +383,24 @@ func ReadEncodeAlignment(f io.Reader, hardGaps bool, chnl chan EncodedFastaRecor
 	for s.Scan() {
 		line = s.Bytes()
 
+		// blank lines are not part of any record
+		if len(line) == 0 {
+			continue
+		}
+
 		if first {
 
-			if len(line) == 0 || line[0] != '>' {
+			if line[0] != '>' {
 				cErr <- errors.New("badly formatted fasta file")
 				return
 			}
 
 			description = string(line[1:])
-			id = strings.Fields(description)[0]
+			id, err = idFromDescription(description)
+			if err != nil {
+				cErr <- err
+				return
+			}
 
 			first = false
 
@@ -382,7 +418,11 @@ func ReadEncodeAlignment(f io.Reader, hardGaps bool, chnl chan EncodedFastaRecor
 			counter++
 
 			description = string(line[1:])
-			id = strings.Fields(description)[0]
+			id, err = idFromDescription(description)
+			if err != nil {
+				cErr <- err
+				return
+			}
 			seqBuffer = make([]byte, 0)
 
 		} else {
@@ -461,15 +501,24 @@ func ReadEncodeScoreAlignment(f io.Reader, hardGaps bool, chnl chan EncodedFasta
 	for s.Scan() {
 		line = s.Bytes()
 
+		// blank lines are not part of any record
+		if len(line) == 0 {
+			continue
+		}
+
 		if first {
 
-			if len(line) == 0 || line[0] != '>' {
+			if line[0] != '>' {
 				cErr <- errors.New("badly formatted fasta file")
 				return
 			}
 
 			description = string(line[1:])
-			id = strings.Fields(description)[0]
+			id, err = idFromDescription(description)
+			if err != nil {
+				cErr <- err
+				return
+			}
 
 			first = false
 
@@ -491,7 +540,11 @@ func ReadEncodeScoreAlignment(f io.Reader, hardGaps bool, chnl chan EncodedFasta
 			counter++
 
 			description = string(line[1:])
-			id = strings.Fields(description)[0]
+			id, err = idFromDescription(description)
+			if err != nil {
+				cErr <- err
+				return
+			}
 			seqBuffer = make([]byte, 0)
 			score = 0
 			for i := range counting {
@@ -575,14 +628,22 @@ func ReadEncodeAlignmentToList(f io.Reader, hardGaps bool) ([]EncodedFastaRecord
 	for s.Scan() {
 		line = s.Bytes()
 
+		// blank lines are not part of any record
+		if len(line) == 0 {
+			continue
+		}
+
 		if first {
 
-			if len(line) == 0 || line[0] != '>' {
+			if line[0] != '>' {
 				return []EncodedFastaRecord{}, errors.New("badly formatted fasta file")
 			}
 
 			description = string(line[1:])
-			id = strings.Fields(description)[0]
+			id, err = idFromDescription(description)
+			if err != nil {
+				return []EncodedFastaRecord{}, err
+			}
 
 			first = false
 
@@ -599,7 +660,10 @@ func ReadEncodeAlignmentToList(f io.Reader, hardGaps bool) ([]EncodedFastaRecord
 			counter++
 
 			description = string(line[1:])
-			id = strings.Fields(description)[0]
+			id, err = idFromDescription(description)
+			if err != nil {
+				return []EncodedFastaRecord{}, err
+			}
 			seqBuffer = make([]byte, 0)
 
 		} else {
